@@ -169,6 +169,8 @@ func main() {
 		forEachCaseConcurrent(parseCase, 6)
 	case "filter":
 		forEachCase(filterCase)
+	case "scan":
+		forEachCase(scanCase)
 	default:
 		fmt.Fprintln(os.Stderr, "unknown subcommand")
 		os.Exit(2)
